@@ -88,6 +88,10 @@ def worker_main(check_id, tier, seed, shard, nshards, out_path):
     plan = mod.plan(tier, seed)
     n = plan['n']
     budget = plan.get('budget_s', 1e9)
+    use_contracts = bool(getattr(mod, 'CONTRACTS', False))
+    if use_contracts:
+        from vlib import contracts
+        use_contracts = contracts.install()
     rec = cover.Recorder()
     rec.start()
     t0 = time.time()
@@ -105,6 +109,17 @@ def worker_main(check_id, tier, seed, shard, nshards, out_path):
             f.write(json.dumps(res.to_json(), default=repr) + '\n')
             done += 1
         rec.stop()
+        if getattr(mod, 'CONTRACTS', False):
+            cres = Result(-3)
+            cres.evals = 0
+            if use_contracts:
+                from vlib import contracts
+                cres.count('contract_evaluations', contracts.OBS['evaluated'])
+                for name, detail in contracts.OBS['broken']:
+                    cres.violation('contract_broken', '%s: %s' % (name, detail), contract=name[:40])
+            else:
+                cres.count('contracts_not_installed')
+            f.write(json.dumps(cres.to_json(), default=repr) + '\n')
         f.write(json.dumps({'cover': rec.summary(), 'done': done,
                             'planned': len(range(shard, n, nshards))}) + '\n')
     return 0
@@ -127,7 +142,8 @@ def match_finding(findings, prop, viol):
         if fd.get('property') != prop or fd.get('status') != 'open':
             continue
         m = fd.get('match', {})
-        if m and all(flat.get(k) == v for k, v in m.items()):
+        if m and all((flat.get(k) in v) if isinstance(v, list) else (flat.get(k) == v)
+                     for k, v in m.items()):
             return fd
     return None
 
